@@ -520,6 +520,13 @@ func normalizeValue(
 		d := v.Interface().(time.Duration)
 		return newString(ctx, opts.meta, d.String()), nil
 	case tRegexp:
+		if !v.CanAddr() {
+			// a Regexp held by value (in a map, an interface or a struct passed
+			// by value): String needs a pointer, use an addressable copy
+			tmp := reflect.New(tRegexp).Elem()
+			tmp.Set(v)
+			v = tmp
+		}
 		r := v.Addr().Interface().(*regexp.Regexp)
 		return newString(ctx, opts.meta, r.String()), nil
 	}
